@@ -52,11 +52,12 @@ type H struct {
 	coll  moss.Collection
 	mapLL *mapLower
 
-	gating  int32
-	arrive  chan string
-	mu      sync.Mutex
-	parked  map[string]string // actor -> gate name
-	release map[string]chan struct{}
+	gating   int32
+	gateWait int32 // park the merger at "merger:wait" too (before it decides to sleep); off by default
+	arrive   chan string
+	mu       sync.Mutex
+	parked   map[string]string // actor -> gate name
+	release  map[string]chan struct{}
 
 	onErrors   int32
 	injected   int32 // number of failures the harness injected on purpose
@@ -73,6 +74,9 @@ func init() {
 		h := currentH
 		if h == nil || atomic.LoadInt32(&h.gating) == 0 || c != h.coll {
 			return
+		}
+		if name == "merger:wait" && atomic.LoadInt32(&h.gateWait) == 0 {
+			return // only the scenarios that ask for it see this gate
 		}
 		h.gateArrive(name)
 	}
